@@ -26,7 +26,7 @@ ASSUMPTIONS = [
     "identity tolerances: residuals 1e-9 relative, pseudo chi-squared 1e-8 relative, circuit impedance 1e-9 relative (measured head-room: six orders of magnitude)",
     "BHT and the differential-evolution extension search are documented-stochastic: compared under a pinned global numpy RNG state",
 ]
-EXPECTED_PROBES = ["F2", "variant_garbage", "variant_ascending", "variant_mask_history", "shared_memory_runs", "identities_checked"]
+EXPECTED_PROBES = ["F2", "decoy_analysis_before", "variant_garbage", "variant_ascending", "variant_mask_history", "shared_memory_runs", "identities_checked"]
 
 PLAN = {
     "quick": {"workloads": 96, "variants": 60, "wall_budget": 200.0, "min_variants": 6, "wall_limit": 2400.0, "per_job_limit": 1200.0},
@@ -73,6 +73,8 @@ def draw_config(rng, wl, tier):
                          "history": rng.randrange(1, 10**6) if rng.random() < 0.3 else None},
     }
     cfg["in_child"] = rng.random() < 0.12
+    # history fault: the same analysis on another data set, with the same worker count, earlier in the process
+    cfg["decoy"] = rng.random() < 0.15
     return cfg
 
 
@@ -89,11 +91,52 @@ def _variant(wl, dv):
     return w2
 
 
+def _decoy(wl):
+    """The same analysis on another data set (other noise realisation, other size, no mask) earlier in the
+    same process: long-lived pools, per-process caches or worker state must not carry it into the next call."""
+    w = dict(wl)
+    w["data"] = dict(wl["data"])
+    w["data"]["noise_seed"] = wl["data"].get("noise_seed", 0) + 17
+    w["data"]["noise_pct"] = max(1.0, wl["data"].get("noise_pct", 0.0) * 3)
+    w["data"]["mask"] = []
+    if wl["data"]["n"] > 10:
+        w["data"]["n"] = wl["data"]["n"] - 2
+    return w
+
+
+def _evaluate_after_decoy(args):
+    wl, cfg, dec, ctx = args
+    out, viols = _evaluate(wl, cfg, dec, ctx, after_decoy=True)
+    return out, viols, dec.log
+
+
 def evaluate(wl, cfg, dec, ctx):
+    if cfg.get("decoy") and ctx.extra.get("decoys", 0) < 4:
+        from simkit import batch
+
+        ctx.extra["decoys"] = ctx.extra.get("decoys", 0) + 1
+        ctx.reference()  # computed in the clean job process
+        out, viols, log = batch._isolated(_evaluate_after_decoy, (wl, cfg, dec, ctx), 900.0, arm_watchdog=False)
+        dec.log = log
+        return out, viols
+    return _evaluate(wl, cfg, dec, ctx)
+
+
+def _evaluate(wl, cfg, dec, ctx, after_decoy=False):
+    from simkit import simpool
+
     ref = ctx.reference()
     dv = cfg.get("data_variant") or {}
     wv = _variant(wl, dv)
-    out = run_entry(wv, cfg, dec, ctx.cache)
+    cache = ctx.cache
+    if after_decoy:
+        dcfg = {"num_procs": cfg["num_procs"], "callbacks": 0, "np_seed": 777 if wl.get("stochastic") else 4321}
+        run_entry(_decoy(wl), dcfg, cache=simpool.TaskCache())
+        cache = simpool.TaskCache()
+    out = run_entry(wv, cfg, dec, cache)
+    if after_decoy and out.status != "skipped":
+        out.probes = dict(out.probes or {})
+        out.probes["decoy_analysis_before"] = 1
     if out.status == "skipped":
         if out.skipped == "dataset_mismatch":
             # The data set handed to the analysis does not present the unmasked points it was built
